@@ -728,7 +728,7 @@ func ruleOnStack(rule string) RuleFn {
 				// a decorator found on the stack is skipped, the search goes on with the next scope
 				for _, d := range defs {
 					lk := d.(*ssa.Extract).Tuple.(*ssa.Call)
-					for _, l := range rangeLoops(fn) {
+					for _, l := range allLoops(fn) {
 						if !l.body[lk.Block()] {
 							continue
 						}
